@@ -4,6 +4,7 @@ import (
 	"bytes"
 	"fmt"
 	"go/format"
+	"io"
 	"io/ioutil"
 	"os"
 	"path"
@@ -12,7 +13,15 @@ import (
 	"github.com/varlink/go/varlink/idl"
 )
 
-func writeType(b *bytes.Buffer, t *idl.Type, json bool, ident int) {
+// source collects the generated declarations and records which packages
+// they refer to, so that exactly those are imported.
+type source struct {
+	bytes.Buffer
+	usesJSON bool // encoding/json
+	usesFmt  bool // fmt
+}
+
+func writeType(b *source, t *idl.Type, json bool, ident int) {
 	switch t.Kind {
 	case idl.TypeBool:
 		b.WriteString("bool")
@@ -28,6 +37,7 @@ func writeType(b *bytes.Buffer, t *idl.Type, json bool, ident int) {
 
 	case idl.TypeObject:
 		b.WriteString("json.RawMessage")
+		b.usesJSON = true
 
 	case idl.TypeArray:
 		b.WriteString("[]")
@@ -101,7 +111,7 @@ func resolvesToObject(midl *idl.IDL, t *idl.Type) bool {
 	return false
 }
 
-func writeDocString(b *bytes.Buffer, s string) {
+func writeDocString(b io.StringWriter, s string) {
 	if s == "" {
 		return
 	}
@@ -128,13 +138,9 @@ func generateTemplate(description string) (string, []byte, error) {
 		}
 	}
 
-	var b bytes.Buffer
-	b.WriteString("// Code generated by github.com/varlink/go/cmd/varlink-go-interface-generator, DO NOT EDIT.\n\n")
-
-	writeDocString(&b, midl.Doc)
-	b.WriteString("package " + pkgname + "\n\n")
-	b.WriteString("@IMPORTS@\n\n")
-
+	// The declarations are generated first; the header with the import
+	// block, which depends on what they use, is put in front afterwards.
+	var b source
 	b.WriteString("// Generated type declarations\n\n")
 
 	for _, a := range midl.Aliases {
@@ -155,6 +161,7 @@ func generateTemplate(description string) (string, []byte, error) {
 		b.WriteString("\nfunc (e " + a.Name + ") Error() string {\n")
 		b.WriteString("\ts := \"" + midl.Name + "." + a.Name + "\"\n")
 		if len(a.Type.Fields) > 0 {
+			b.usesFmt = true
 			b.WriteString("\ts += fmt.Sprintf(\"(")
 			for i, f := range a.Type.Fields {
 				b.WriteString(strings.Title(f.Name) + ": %v")
@@ -179,6 +186,7 @@ func generateTemplate(description string) (string, []byte, error) {
 	b.WriteString("\tif e, ok := err.(*varlink.Error); ok {\n")
 	b.WriteString("\t\tswitch e.Name {\n")
 	for _, a := range midl.Errors {
+		b.usesJSON = true
 		b.WriteString("\t\tcase \"" + midl.Name + "." + a.Name + "\":\n")
 		b.WriteString("\t\t\terrorRawParameters := e.Parameters.(*json.RawMessage)\n")
 		b.WriteString("\t\t\tif errorRawParameters == nil {\n")
@@ -563,21 +571,22 @@ func generateTemplate(description string) (string, []byte, error) {
 		"\treturn &VarlinkInterface{m}\n" +
 		"}\n")
 
-	ret_string := b.String()
-
-	imports := []string{"\"github.com/varlink/go/varlink\""}
-	if strings.Contains(ret_string, "context.Context") {
-		imports = append(imports, "\"context\"")
-	}
-	if strings.Contains(ret_string, "json.RawMessage") {
+	// context and varlink are used by the fixed part of every generated file
+	imports := []string{"\"github.com/varlink/go/varlink\"", "\"context\""}
+	if b.usesJSON {
 		imports = append(imports, "\"encoding/json\"")
 	}
-	if strings.Contains(ret_string, "fmt.Sprintf") {
+	if b.usesFmt {
 		imports = append(imports, "\"fmt\"")
 	}
-	ret_string = strings.Replace(ret_string, "@IMPORTS@", fmt.Sprintf("import (\n%s\n)", strings.Join(imports, "\n\t")), 1)
 
-	pretty, err := format.Source([]byte(ret_string))
+	var head bytes.Buffer
+	head.WriteString("// Code generated by github.com/varlink/go/cmd/varlink-go-interface-generator, DO NOT EDIT.\n\n")
+	writeDocString(&head, midl.Doc)
+	head.WriteString("package " + pkgname + "\n\n")
+	head.WriteString("import (\n" + strings.Join(imports, "\n\t") + "\n)\n\n")
+
+	pretty, err := format.Source(append(head.Bytes(), b.Bytes()...))
 	if err != nil {
 		return "", nil, err
 	}
